@@ -141,6 +141,13 @@ fn run_query(doc: &xml_dom::XmlDocument, expr: &str, ctx: &mut xml_xpath::eval::
 fn has_adjacent_text(w: &World, abs: &J) -> bool {
     for ks in abs["kids"].as_array().unwrap() {
         let ks = ks.as_array().unwrap();
+        // an empty Text child (split_text at either end) is not representable in a serialization either
+        for k in ks {
+            let a = k.as_i64().unwrap_or(0);
+            if a > 0 && w.kind[a as usize] == "text" && w.nodes[a as usize].is_some() && w.text_len(a as usize) == 0 {
+                return true;
+            }
+        }
         for p in ks.windows(2) {
             let (a, b) = (p[0].as_i64().unwrap_or(0), p[1].as_i64().unwrap_or(0));
             if a > 0 && b > 0 && w.kind[a as usize] == "text" && w.kind[b as usize] == "text" {
@@ -188,10 +195,10 @@ fn random_call(w: &World, rng: &mut StdRng) -> J {
     // split_text: an existing text node of the main document, while a spare slot is left
     if let Some(slot) = w.spare() {
         if rng.gen_range(0..100) < 6 {
-            let texts: Vec<usize> = movable.iter().cloned().filter(|i| w.kind[*i] == "text" && main(*i) && w.text_len(*i) >= 2).collect();
+            let texts: Vec<usize> = movable.iter().cloned().filter(|i| w.kind[*i] == "text" && main(*i) && w.text_len(*i) >= 1).collect();
             if let Some(t) = texts.choose(rng) {
                 let len = w.text_len(*t);
-                return json!({"op": "split_text", "r": t, "new": slot, "off": rng.gen_range(1..len)});
+                return json!({"op": "split_text", "r": t, "new": slot, "off": rng.gen_range(0..=len)});   // both ends included: an empty half is a node too
             }
         }
     }
